@@ -1073,6 +1073,21 @@ func (fr *Frame) execUnOp(st *State, x *ssa.UnOp) {
 				return
 			}
 		}
+		if gl, isG := x.X.(*ssa.Global); isG {
+			if ct, ok := g.globalConstTerm(gl); ok {
+				fr.set(x, Val{T: x.Type(), S: ct})
+				return
+			}
+		}
+		if ia, isIA := x.X.(*ssa.IndexAddr); isIA {
+			if gl, isG := ia.X.(*ssa.Global); isG {
+				if ct, ok := g.globalConstTerm(gl); ok {
+					idx := fr.val(ia.Index)
+					fr.set(x, Val{T: x.Type(), S: g.define("gc", g.S.sortOf(x.Type()), "(select "+ct+" "+g.toIdx(idx.S, ia.Index.Type())+")")})
+					return
+				}
+			}
+		}
 		s := g.load(st, a, x.Type())
 		s = g.define("ld", g.S.sortOf(x.Type()), s)
 		if a.cell == nil {
@@ -1289,7 +1304,8 @@ func (fr *Frame) execBinOp(st *State, x *ssa.BinOp) {
 		}
 	case token.AND:
 		// x & (2^k-1) on non-negative x
-		if k, isC := isConstTerm(b.S); isC && k.Sign() >= 0 && isPow2Minus1(k) && !signed {
+		// x & (2^k-1) is x mod 2^k (Euclidean, also for negative two's complement x)
+		if k, isC := isConstTerm(b.S); isC && k.Sign() >= 0 && isPow2Minus1(k) {
 			s = "(mod " + a.S + " " + new(bigInt).Add(k, bigOne).String() + ")"
 		} else {
 			fr.set(x, g.havocVal("and", x.Type()))
